@@ -738,7 +738,7 @@ func generate(r *hx.Rng) []*kase {
 		// compact frame with entries of size 2^20-1, 2^20, 2^20+1 (in a seed-dependent order) and small ones between
 		var ents []raftpb.Entry
 		perm := r.Perm(3)
-		for _, p := range perm[:1+i%3] {
+		for _, p := range perm[:3-i%3] { // the first iteration carries all three sizes
 			ents = append(ents, entryOfSize(r, g.term, g.last+uint64(len(ents))+1, sizes[p]))
 			if r.Chance(0.5) {
 				ents = append(ents, genEntry(r, g.term, g.last+uint64(len(ents))+1))
